@@ -278,6 +278,27 @@ static void huge_avail_in(void)
 		munmap(big, (2ull << 30) + (4u << 20) + 4096); gs_reset(s_st); gs_reset(s_extra); gs_reset(s_name); gs_reset(s_comment);
 	}
 }
+/* name / comment strings longer than 65535 bytes (the format sets no limit), read back in 4096-byte pieces: the reader keeps its write
+ * offset between calls, a 16-bit offset would wrap */
+static void long_string_case(void)
+{
+	vrng r; vr_seed(&r, vopt.seed, 92, 1);
+	for (int which = 0; which < 2; which++) {
+		size_t L = 65536 + 17 + vrn(&r, 6000); char *big = malloc(L + 1), *got = malloc(L + 4096); uint8_t *hdr = malloc(L + 200000); if (!big || !got || !hdr) v_harness_fail("malloc");
+		for (size_t i = 0; i < L; i++) big[i] = (char) (1 + (i * 7 + i / 251) % 255); big[L] = 0;
+		refgz_t h; memset(&h, 0, sizeof h); h.os = 3; h.hcrc = (int) vrn(&r, 2); if (which) h.comment = big; else h.name = big; size_t hl = refhdr_gzip(hdr, &h);
+		struct inflate_state *st = (struct inflate_state *) gs_place(s_st, sizeof *st, G_START, 0); static struct isal_gzip_header gh;
+		v_setcase(710000000l + which, "gzip header with a %s of %zu bytes read in 4096-byte pieces", which ? "comment" : "name", L);
+		size_t given = 0; int rc = ISAL_END_INPUT, calls = 0;
+		if (V_TRY(60)) { isal_inflate_init(st); isal_gzip_header_init(&gh); if (which) { gh.comment = got; gh.comment_buf_len = (uint32_t) (L + 4096); } else { gh.name = got; gh.name_buf_len = (uint32_t) (L + 4096); } st->avail_in = 0;
+			while (rc == ISAL_END_INPUT && ++calls < 1000) { if (st->avail_in == 0) { if (given >= hl) break; size_t c = hl - given < 4096 ? hl - given : 4096; st->next_in = hdr + given; st->avail_in = (uint32_t) c; given += c; } rc = isal_read_gzip_header(st, &gh); }
+			V_END; } else { fault_key("isal_read_gzip_header(long string)"); goto next; }
+		st_reads += calls; v_count("long_string_headers", which ? "comment" : "name", 1);
+		if (rc != ISAL_DECOMP_OK) { char key[100]; snprintf(key, sizeof key, "reader:rejects-valid-header:gzip:%d:long-%s", rc, which ? "comment" : "name"); v_viol(key, "returned %d for a header whose %s is %zu bytes long", rc, which ? "comment" : "name", L); }
+		else if (strlen(got) != L || memcmp(got, big, L)) { size_t x = 0; while (x < L && got[x] == big[x]) x++; v_viol(which ? "reader:fields:long-comment" : "reader:fields:long-name", "string of %zu bytes comes back with length %zu, first difference at %zu", L, strlen(got), x); }
+	next:	free(big); free(got); free(hdr); gs_reset(s_st);
+	}
+}
 int main(int argc, char **argv)
 {
 	v_init(argc, argv);
@@ -287,7 +308,8 @@ int main(int argc, char **argv)
 	ref = malloc(100000); extra_src = malloc(70000); name_src = malloc(8192); comment_src = malloc(8192);
 	long n = (long) ((vopt.thorough ? 4000000 : 60000) * vopt.scale);
 	if (V_NDISPATCHED > 0) { cpusim_init(); const cpucfg *c0 = cpusim_find("avx512+g2"); if (c0 && cpusim_host_can(c0)) cpusim_apply(c0); }
-	if (vopt.shard == 0 && vopt.only < 0 && !strcmp(vopt.prop, "C19")) huge_avail_in(); else if (vopt.only >= 700000000l && vopt.only < 800000000l) { huge_avail_in(); return v_finish(); }
+	if (vopt.shard == 1 % vopt.nshards && vopt.only < 0 && !strcmp(vopt.prop, "C19")) long_string_case(); else if (vopt.only >= 710000000l && vopt.only < 720000000l) { long_string_case(); return v_finish(); }
+	if (vopt.shard == 0 && vopt.only < 0 && !strcmp(vopt.prop, "C19")) huge_avail_in(); else if (vopt.only >= 700000000l && vopt.only < 710000000l) { huge_avail_in(); return v_finish(); }
 	/* the header CRC16 is computed by whichever crc32_gzip_refl kernel the CPU level selects: the cases are spread over four levels */
 	static const char *lvn[4] = { "avx512+g2", "avx", "sse", "base" };
 	for (int l = 0; l < 4; l++) {
